@@ -1119,6 +1119,10 @@ fn finish_run<S: Read + Write + SetTimeout>(ep: &mut Ep<S>, w: Wait, sh: &Shared
 /// deadline pass nor another endpoint of the scenario abort: then nothing but sozu can have ended the connection.
 fn finish_run_strict<S: Read + Write + SetTimeout>(ep: &mut Ep<S>, w: Wait, sh: &Shared, sc: &Value, who: &str, requests_ok: bool, strict: bool) {
     let complete = ep.all_done() || ep.dead;
+    // the cooperative client of a backend scenario whose checked backend endpoint has given a verdict of its own (stall,
+    // garbled, inconclusive): what the client saw next (a 502 / 504 for the request, a reset) is a consequence, not a finding
+    let knock_on = who == "driver" && ep.cfg.abort.as_ref().map(|a| a.load(Ordering::SeqCst)).unwrap_or(false);
+    let w = if knock_on { Wait::Inconclusive } else { w };
     let outcome = match w {
         Wait::Quiet => {
             if complete || (!ep.sozu_is_server && requests_ok) { ep.log(json!({"ev": "Done"})); "done" } else { "inconclusive" }
